@@ -1285,7 +1285,9 @@ def parse_txt(txt, xopts=None, **kwargs):
     uniquifier = xopts.uniquifier
     if uniquifier is None:
         log.debug(f"creating uniquifier for {txt}")
-        uniquifier = uniq.Uniquifier()
+        # the expander's own: it expands the bodies of <ref>, <poem>, <gallery>, ... later on and
+        # has to find the regions protected here (a second Uniquifier left their markers in the tree)
+        uniquifier = getattr(xopts.expander, "uniquifier", None) or uniq.Uniquifier()
         txt = uniquifier.replace_tags(txt)
         xopts.uniquifier = uniquifier
 
